@@ -297,11 +297,11 @@ def directStepT (fixed : Bool) (T : Topo) (h : Handler) (iS iD : Nat) (x y z : N
 def directStep (fixed : Bool) (h : Handler) (iS iD : Nat) (x y z : Nat) (w : World α) : Except String (World α) :=
   directStepT fixed (cartTopo h.nprocs) h iS iD x y z w
 
-/-- `dest[:] = source` on every rank -/
+/-- `dest[:] = source` on every rank (the blocks of the `n` ranks are independent of each other) -/
 def copyWhole (n : Nat) (w : World α) (fromRole toRole : Nat) : World α :=
-  (List.range n).foldl (fun acc rank =>
-    let s := acc.get fromRole rank
-    acc.set toRole rank (copyPrefix (acc.get toRole rank) s s.size)) w
+  w.setIfInBounds toRole (((List.range n).map (fun rank =>
+    let s := w.get fromRole rank
+    copyPrefix (w.get toRole rank) s s.size)).toArray)
 
 /-- the body of the `for i in range(nSteps)` loops of both redirect functions:
     `self._transpose(fromBuf, toBuf, nowLayout, nextLayout)` then `fromBuf, toBuf = toBuf, fromBuf` -/
